@@ -303,6 +303,8 @@ impl SupervisionTree {
 
         // Send to supervisor
         if let Some(parent) = supervisor_target {
+            #[cfg(feature = "verif")]
+            crate::verif::note_sup(&parent, &evt);
             _ = parent.send_supervisor_evt(evt);
         }
     }
